@@ -120,6 +120,68 @@ func place(seed uint64, n, off, pat, guard int) (p []byte, free func()) {
 	return p, free
 }
 
+// ---- argument flavours and the scribble discipline
+//
+// Every slice handed to the library can be given as a private copy in one of
+// these flavours (explicit in the JSON case, since nil and empty serialise
+// alike): 0 as placed, 1 nil, 2 []byte{}, 3 buf[:0] of a non-empty buffer
+// (1..3 only for zero-length arguments), 4 with spare capacity behind it. The
+// spare capacity is filled with a sentinel that must still be there after the
+// call (none of Write, UnmarshalBinary, Kdf documents append semantics).
+// With scribbling on, the copy is overwritten with garbage as soon as the call
+// returns; everything the object produces later must still match the model,
+// i.e. the library kept no reference into the caller's memory.
+const sentinelByte = 0xC3
+
+// effFlavour maps a drawn flavour to the one applicable to an argument of n bytes.
+func effFlavour(f, n int) int {
+	if n == 0 && f >= 1 && f <= 3 {
+		return f
+	}
+	if n > 0 && f == 4 {
+		return 4
+	}
+	return 0
+}
+
+func flavoured(b []byte, f int) (arg []byte, check func() error) {
+	check = func() error { return nil }
+	spare := func(buf []byte, from int) func() error {
+		return func() error {
+			for i := from; i < len(buf); i++ {
+				if buf[i] != sentinelByte {
+					return fmt.Errorf("the spare capacity of a %d-byte argument was written at offset %d", from, i)
+				}
+			}
+			return nil
+		}
+	}
+	switch effFlavour(f, len(b)) {
+	case 1:
+		return nil, check
+	case 2:
+		return []byte{}, check
+	case 3:
+		buf := bytes.Repeat([]byte{sentinelByte}, 48)
+		return buf[:0], spare(buf, 0)
+	case 4:
+		buf := bytes.Repeat([]byte{sentinelByte}, len(b)+40)
+		copy(buf, b)
+		return buf[:len(b)], spare(buf, len(b))
+	}
+	return append([]byte{}, b...), check
+}
+
+var flavourNames = []string{"as placed", "nil", "[]byte{}", "buf[:0]", "spare capacity"}
+
+// scribble overwrites a slice the library has been given or has returned
+// (only its visible bytes: the spare capacity is checked separately).
+func scribble(b []byte) {
+	for i := range b {
+		b[i] = 0xDB ^ byte(i*7)
+	}
+}
+
 var observeDone bool
 
 // observeTier records what can be seen from outside about the dispatch tier:
@@ -164,6 +226,10 @@ func observeTier() {
 //	msame  MarshalBinary, UnmarshalBinary into the same object
 //	mused  MarshalBinary, UnmarshalBinary into another object that already
 //	       absorbed N bytes (and summed), continue there
+//	mbad   UnmarshalBinary of an invalid state into the running object (N: 0 nil,
+//	       1 []byte{}, 2 buf[:0], 3 the valid state of another stream minus its last
+//	       byte, 4 plus one byte, 5 with a wrong identifier, 6 the identifier alone);
+//	       it must fail without touching the running state
 //	size   Size/BlockSize
 //
 // App: export through AppendBinary(prefix of N%7 bytes) instead of MarshalBinary.
@@ -172,6 +238,7 @@ type op struct {
 	N   int    `json:"n,omitempty"`
 	Off int    `json:"off,omitempty"`
 	G   int    `json:"g,omitempty"` // w/wb: placement of the chunk, see place
+	F   int    `json:"f,omitempty"` // argument flavour, see flavoured (w/wb: the chunk; sum: 1 nil, 2 []byte{}; m*: 4 = state with spare capacity)
 	App bool   `json:"app,omitempty"`
 }
 
@@ -179,6 +246,7 @@ type histCase struct {
 	Seed uint64
 	Pat  int  // content pattern of written chunks, see fill
 	Each bool // verify Sum(nil) (twice) after every action, not only at sum ops and at the end
+	Scr  bool // scribble over every argument and every returned slice right after the call
 	Ops  []op
 }
 
@@ -187,11 +255,19 @@ func genGuard() *rapid.Generator[int] {
 	return rapid.SampledFrom([]int{0, 0, 0, 0, 1, 1, 2})
 }
 
+// genFlavour draws an argument flavour; those that do not apply to the
+// argument's length fall back to "as placed" (effFlavour).
+func genFlavour() *rapid.Generator[int] {
+	return rapid.SampledFrom([]int{0, 0, 0, 1, 2, 3, 4, 4})
+}
+
 func genOp() *rapid.Generator[op] {
 	classLens := []int{0, 1, 55, 56, 63, 64, 65, 119, 120, 127, 128, 129}
 	return rapid.Custom(func(t *rapid.T) op {
-		k := rapid.IntRange(0, 23).Draw(t, "kind")
+		k := rapid.IntRange(0, 25).Draw(t, "kind")
 		switch {
+		case k >= 24:
+			return op{K: "mbad", N: rapid.IntRange(0, 6).Draw(t, "bad")}
 		case k < 9:
 			var n int
 			switch rapid.IntRange(0, 9).Draw(t, "lenKind") {
@@ -204,20 +280,20 @@ func genOp() *rapid.Generator[op] {
 			default:
 				n = rapid.IntRange(0, 4096).Draw(t, "uniform")
 			}
-			return op{K: "w", N: n, Off: rapid.IntRange(0, 17).Draw(t, "off"), G: genGuard().Draw(t, "guard")}
+			return op{K: "w", N: n, Off: rapid.IntRange(0, 17).Draw(t, "off"), G: genGuard().Draw(t, "guard"), F: genFlavour().Draw(t, "flavour")}
 		case k < 12:
-			return op{K: "wb", N: rapid.SampledFrom([]int{0, 1, 2, 64, 65, 66, 129}).Draw(t, "rel"), Off: rapid.IntRange(0, 17).Draw(t, "off"), G: genGuard().Draw(t, "guard")}
+			return op{K: "wb", N: rapid.SampledFrom([]int{0, 1, 2, 64, 65, 66, 129}).Draw(t, "rel"), Off: rapid.IntRange(0, 17).Draw(t, "off"), G: genGuard().Draw(t, "guard"), F: genFlavour().Draw(t, "flavour")}
 		case k < 16:
 			return op{K: "sum", N: rapid.SampledFrom([]int{0, 0, 1, 7, 32, 33, 64, 100}).Draw(t, "prefix"),
-				Off: rapid.SampledFrom([]int{0, 1, 31, 32, 33, 80}).Draw(t, "spare")}
+				Off: rapid.SampledFrom([]int{0, 1, 31, 32, 33, 80}).Draw(t, "spare"), F: rapid.SampledFrom([]int{0, 0, 0, 0, 1, 2}).Draw(t, "flavour")}
 		case k < 17:
 			return op{K: "reset"}
 		case k < 19:
-			return op{K: "mnew", N: rapid.IntRange(0, 6).Draw(t, "pre"), App: rapid.Bool().Draw(t, "app")}
+			return op{K: "mnew", N: rapid.IntRange(0, 6).Draw(t, "pre"), App: rapid.Bool().Draw(t, "app"), F: rapid.SampledFrom([]int{0, 0, 4}).Draw(t, "flavour")}
 		case k < 21:
-			return op{K: "msame", N: rapid.IntRange(0, 6).Draw(t, "pre"), App: rapid.Bool().Draw(t, "app")}
+			return op{K: "msame", N: rapid.IntRange(0, 6).Draw(t, "pre"), App: rapid.Bool().Draw(t, "app"), F: rapid.SampledFrom([]int{0, 0, 4}).Draw(t, "flavour")}
 		case k < 23:
-			return op{K: "mused", N: rapid.SampledFrom([]int{1, 5, 63, 64, 65, 130, 200}).Draw(t, "junk"), App: rapid.Bool().Draw(t, "app")}
+			return op{K: "mused", N: rapid.SampledFrom([]int{1, 5, 63, 64, 65, 130, 200}).Draw(t, "junk"), App: rapid.Bool().Draw(t, "app"), F: rapid.SampledFrom([]int{0, 0, 4}).Draw(t, "flavour")}
 		default:
 			return op{K: "size"}
 		}
@@ -228,6 +304,7 @@ func genHist(t *rapid.T) histCase {
 	c := histCase{
 		Seed: rapid.Uint64().Draw(t, "seed"),
 		Each: rapid.Bool().Draw(t, "each"),
+		Scr:  rapid.IntRange(0, 3).Draw(t, "scribble") > 0,
 	}
 	switch rapid.IntRange(0, 9).Draw(t, "pat") {
 	case 0:
@@ -260,7 +337,7 @@ func checkHistory(c histCase, r *h.Rec) error {
 	}
 	summed := false // a Sum has already been taken on the running state
 	writes, cross, straddle := 0, 0, 0
-	sumThenWrite, resets, marshals, guarded := 0, 0, 0, 0
+	sumThenWrite, resets, marshals, guarded, badImports := 0, 0, 0, 0, 0
 	maxLen := 0
 
 	verify := func(i int) error {
@@ -271,11 +348,15 @@ func checkHistory(c histCase, r *h.Rec) error {
 			return fmt.Errorf("Sum(nil) = %x, GB/T 32905 value of the %d bytes written is %x, %s; input %s",
 				got, len(model), w, hist(i), h.Hex(model))
 		}
-		if again := d.Sum(nil); !bytes.Equal(again, got) {
-			return fmt.Errorf("second Sum(nil) = %x differs from the first %x (Sum disturbed the state), %s", again, got, hist(i))
+		if c.Scr {
+			scribble(got) // the returned digest is the caller's
+		}
+		if again := d.Sum(nil); !bytes.Equal(again, w[:]) {
+			return fmt.Errorf("second Sum(nil) = %x differs from the first %x (Sum disturbed the state, or the first result aliases it), %s", again, w, hist(i))
 		}
 		return nil
 	}
+	flavourSeen := map[string]bool{}
 
 	for i, o := range c.Ops {
 		switch o.K {
@@ -288,13 +369,29 @@ func checkHistory(c histCase, r *h.Rec) error {
 				}
 			}
 			p, free := place(gen.Mix(c.Seed, uint64(i)), n, o.Off, c.Pat, o.G)
-			pos := len(model) % 64
-			d.Write(p)
-			model = append(model, p...)
-			free()
-			if o.G != 0 {
+			content := append([]byte{}, p...)
+			spareOK := func() error { return nil }
+			if f := effFlavour(o.F, n); f != 0 {
+				free()
+				free = func() {}
+				p, spareOK = flavoured(content, f)
+				flavourSeen["write:"+flavourNames[f]] = true
+			} else if o.G != 0 {
 				guarded++
 			}
+			pos := len(model) % 64
+			d.Write(p)
+			model = append(model, content...)
+			if !bytes.Equal(p, content) {
+				return fmt.Errorf("Write modified its argument (io.Writer forbids that): %s -> %s, %s", h.Hex(content), h.Hex(p), hist(i))
+			}
+			if err := spareOK(); err != nil {
+				return fmt.Errorf("Write: %v, %s", err, hist(i))
+			}
+			if c.Scr {
+				scribble(p)
+			}
+			free()
 			wantOK = false
 			writes++
 			if pos+n >= 64 {
@@ -314,6 +411,16 @@ func checkHistory(c histCase, r *h.Rec) error {
 			backing := gen.Fill(gen.Mix(c.Seed, uint64(i), 0x5a), o.N+o.Off+16)
 			orig := append([]byte{}, backing...)
 			prefix := backing[: o.N : o.N+o.Off]
+			if o.F == 1 || o.F == 2 {
+				o.N, o.Off = 0, 0
+				prefix = nil
+				if o.F == 2 {
+					prefix = []byte{}
+				}
+				flavourSeen["sum:"+flavourNames[o.F]] = true
+			} else if o.N == 0 && o.Off > 0 {
+				flavourSeen["sum:buf[:0]"] = true
+			}
 			out := d.Sum(prefix)
 			summed = true
 			if len(out) != o.N+32 || !bytes.Equal(out[:o.N], orig[:o.N]) || !bytes.Equal(out[o.N:], w[:]) {
@@ -324,6 +431,10 @@ func checkHistory(c histCase, r *h.Rec) error {
 			}
 			if !bytes.Equal(backing[o.N+o.Off:], orig[o.N+o.Off:]) {
 				return fmt.Errorf("Sum wrote beyond the capacity of its argument, %s", hist(i))
+			}
+			if c.Scr {
+				scribble(out)
+				scribble(backing)
 			}
 			if err := verify(i); err != nil {
 				return fmt.Errorf("after Sum(prefix): %w", err)
@@ -350,6 +461,9 @@ func checkHistory(c histCase, r *h.Rec) error {
 						return fmt.Errorf("AppendBinary(%x) did not keep its argument as a prefix: %x, %s", pre, out, hist(i))
 					}
 					state = append([]byte{}, out[len(pre):]...)
+					if c.Scr {
+						scribble(out)
+					}
 				}
 			} else {
 				state, err = m.MarshalBinary()
@@ -373,12 +487,21 @@ func checkHistory(c histCase, r *h.Rec) error {
 			if !ok {
 				return fmt.Errorf("%T does not implement encoding.BinaryUnmarshaler (documented on sm3.New)", target)
 			}
-			if err := u.UnmarshalBinary(state); err != nil {
+			stArg, spareOK := flavoured(state, o.F)
+			if effFlavour(o.F, len(state)) == 4 {
+				flavourSeen["import:spare capacity"] = true
+			}
+			if err := u.UnmarshalBinary(stArg); err != nil {
 				return fmt.Errorf("UnmarshalBinary rejected the state produced by the same package: %v, state %x, %s", err, state, hist(i))
 			}
-			// the importing object must own its state (BinaryUnmarshaler contract)
-			for j := range state {
-				state[j] = 0xEE
+			if err := spareOK(); err != nil {
+				return fmt.Errorf("UnmarshalBinary: %v, %s", err, hist(i))
+			}
+			if c.Scr {
+				// the importing object must own its state (BinaryUnmarshaler contract),
+				// and the exported slice must not alias the exporter
+				scribble(stArg)
+				scribble(state)
 			}
 			marshals++
 			if old != target {
@@ -392,6 +515,47 @@ func checkHistory(c histCase, r *h.Rec) error {
 			}
 			d = target
 			// the imported state carries no memory of earlier Sums on the target
+		case "mbad":
+			// the invalid states are cut from the state of ANOTHER stream, so that an
+			// import that fails half-way leaves visible damage
+			var bad []byte
+			other := sm3.New()
+			other.Write(fill(gen.Mix(c.Seed, uint64(i), 0x33), 77, 0, 0))
+			good, err := other.(encoding.BinaryMarshaler).MarshalBinary()
+			if err != nil {
+				return fmt.Errorf("state export failed: %v, %s", err, hist(i))
+			}
+			switch o.N {
+			case 0:
+				bad = nil
+			case 1:
+				bad = []byte{}
+			case 2:
+				bad = make([]byte, 16)[:0]
+			case 3:
+				bad = append([]byte{}, good[:len(good)-1]...)
+			case 4:
+				bad = append(append([]byte{}, good...), 0)
+			case 5:
+				bad = append([]byte{}, good...)
+				bad[0] ^= 0x20
+			default:
+				bad = append([]byte{}, good[:4]...)
+			}
+			if err := d.(encoding.BinaryUnmarshaler).UnmarshalBinary(bad); err == nil {
+				// whether such a state is rejected is not this property's business;
+				// once it has been accepted there is no model for the stream any more
+				r.Label("invalid state accepted: history abandoned, no verdict")
+				return nil
+			}
+			if c.Scr {
+				scribble(bad)
+			}
+			badImports++
+			// a failed import imports nothing: the stream goes on as before
+			if err := verify(i); err != nil {
+				return fmt.Errorf("after a rejected UnmarshalBinary: %w", err)
+			}
 		case "size":
 			if d.Size() != 32 || d.BlockSize() != 64 || sm3.Size != 32 || sm3.BlockSize != 64 {
 				return fmt.Errorf("Size()=%d BlockSize()=%d, want 32 and 64", d.Size(), d.BlockSize())
@@ -436,6 +600,19 @@ func checkHistory(c histCase, r *h.Rec) error {
 	if guarded > 0 {
 		r.Label("chunk-against-guard-page")
 	}
+	if badImports > 0 {
+		r.Label("op:rejected-import-then-continue")
+	}
+	if c.Scr {
+		r.Label("scribble-after-every-call")
+	} else {
+		r.Label("no-scribble")
+	}
+	for _, k := range []string{"write:nil", "write:[]byte{}", "write:buf[:0]", "write:spare capacity", "sum:nil", "sum:[]byte{}", "sum:buf[:0]", "import:spare capacity"} {
+		if flavourSeen[k] {
+			r.Label("arg " + k)
+		}
+	}
 	opLabels := []struct{ k, label string }{{"mnew", "op:marshal->fresh"}, {"msame", "op:marshal->same"}, {"mused", "op:marshal->used"},
 		{"sum", "op:sum(prefix)"}, {"wb", "op:write-to-boundary"}}
 	for _, ol := range opLabels {
@@ -466,7 +643,7 @@ func checkHistory(c histCase, r *h.Rec) error {
 
 func TestC01_History(t *testing.T) {
 	observeTier()
-	h.Prop(t, h.P{Name: "history", Quick: 40000, Thorough: 1500000, Journal: true}, genHist, checkHistory)
+	h.Prop(t, h.P{Name: "history", Quick: 30000, Thorough: 1500000, Journal: true}, genHist, checkHistory)
 }
 
 // hand-written histories that must always be part of the run (regression
@@ -480,9 +657,11 @@ func TestC01_HistoryFixed(t *testing.T) {
 			for a := 0; a <= 130; a++ {
 				for _, b := range []int{1, 63, 64, 65, 200} {
 					k := marsh[(a+b)%3]
-					emit(histCase{Seed: h.Seed, Each: each, Ops: []op{{K: "w", N: a}, {K: "sum", N: 3, Off: 40}, {K: "w", N: b}}})
-					emit(histCase{Seed: h.Seed, Each: each, Ops: []op{{K: "w", N: a}, {K: k, N: 65, App: a%2 == 1}, {K: "w", N: b}}})
-					emit(histCase{Seed: h.Seed, Each: each, Ops: []op{{K: "w", N: b}, {K: "w", N: a}, {K: "reset"}, {K: "w", N: a}, {K: "w", N: b}}})
+					scr := (a+b)%4 != 0
+					emit(histCase{Seed: h.Seed, Each: each, Scr: scr, Ops: []op{{K: "w", N: a, F: a % 5}, {K: "sum", N: 3, Off: 40}, {K: "w", N: b}}})
+					emit(histCase{Seed: h.Seed, Each: each, Scr: scr, Ops: []op{{K: "w", N: a}, {K: k, N: 65, App: a%2 == 1, F: 4 * (a / 2 % 2)}, {K: "w", N: b, F: 4 * (a % 2)}}})
+					emit(histCase{Seed: h.Seed, Each: each, Scr: scr, Ops: []op{{K: "w", N: b}, {K: "w", N: a}, {K: "reset"}, {K: "w", N: a}, {K: "w", N: b}}})
+					emit(histCase{Seed: h.Seed, Each: each, Scr: scr, Ops: []op{{K: "w", N: a}, {K: "mbad", N: (a + b) % 7}, {K: "w", N: 0, F: 1 + a%3}, {K: "sum", F: 1 + a%2}, {K: "w", N: b}}})
 				}
 			}
 		}
@@ -495,19 +674,32 @@ type sumCase struct {
 	Len  int
 	Off  int
 	G    int // placement of the message, see place
+	F    int // argument flavour, see flavoured (overrides Off and G when it applies)
 	Pat  int
 	Seed uint64
 }
 
-func (c sumCase) Key() string { return fmt.Sprintf("%d/%d/%d/%d/%d", c.Len, c.Off, c.G, c.Pat, c.Seed) }
+func (c sumCase) Key() string {
+	return fmt.Sprintf("%d/%d/%d/%d/%d/%d", c.Len, c.Off, c.G, c.F, c.Pat, c.Seed)
+}
 
 func checkSum(c sumCase, r *h.Rec) error {
 	msg, free := place(gen.Mix(c.Seed, uint64(c.Len)), c.Len, c.Off, c.Pat, c.G)
 	defer free()
 	orig := append([]byte{}, msg...)
-	got := sm3.Sum(msg)
-	if c.G != 0 {
+	spareOK := func() error { return nil }
+	if f := effFlavour(c.F, c.Len); f != 0 {
+		msg, spareOK = flavoured(orig, f)
+		r.Label("arg " + flavourNames[f])
+	} else if c.G != 0 {
 		r.Label("message-against-guard-page")
+	}
+	got := sm3.Sum(msg)
+	if !bytes.Equal(msg, orig) {
+		return fmt.Errorf("sm3.Sum modified its argument: %s -> %s", h.Hex(orig), h.Hex(msg))
+	}
+	if err := spareOK(); err != nil {
+		return fmt.Errorf("sm3.Sum: %v", err)
 	}
 	want := ref.SM3(orig)
 	if got != want {
@@ -540,6 +732,13 @@ func TestC01_SumEveryLength(t *testing.T) {
 			emit(sumCase{Len: n, Off: 1 + n%15, Seed: h.Seed + 1})
 			emit(sumCase{Len: n, G: 1, Seed: h.Seed + 2})
 			emit(sumCase{Len: n, G: 2, Seed: h.Seed + 3})
+			if n == 0 {
+				for f := 1; f <= 3; f++ {
+					emit(sumCase{Len: 0, F: f, Seed: h.Seed})
+				}
+			} else {
+				emit(sumCase{Len: n, F: 4, Seed: h.Seed + 4})
+			}
 			if n%3 == 0 {
 				emit(sumCase{Len: n, Off: n % 7, Pat: 1 + n/3%2, Seed: 0})
 			}
@@ -567,7 +766,7 @@ func TestC01_SumLong(t *testing.T) {
 		if rapid.IntRange(0, 9).Draw(t, "pat") == 0 {
 			pat = rapid.IntRange(1, 2).Draw(t, "patv")
 		}
-		return sumCase{Len: n, Off: rapid.IntRange(0, 33).Draw(t, "off"), G: genGuard().Draw(t, "guard"), Pat: pat, Seed: rapid.Uint64().Draw(t, "seed")}
+		return sumCase{Len: n, Off: rapid.IntRange(0, 33).Draw(t, "off"), G: genGuard().Draw(t, "guard"), F: genFlavour().Draw(t, "flavour"), Pat: pat, Seed: rapid.Uint64().Draw(t, "seed")}
 	}, checkSum)
 }
 
@@ -595,12 +794,14 @@ type kdfCase struct {
 	M    int    // a longer output length for the prefix law (0: none)
 	Off  int    // misalignment of z in its backing array
 	G    int    // placement of z, see place
+	ZF   int    // flavour of z when it is handed over as a private heap copy (G == 0), see flavoured
+	Scr  bool   // scribble over every private copy of z and over returned slices right after the call
 	Pat  int    // content pattern of z, see fill
 	Seed uint64 // z = Fill(Mix(Seed, ZLen), ZLen)
 }
 
 func (c kdfCase) Key() string {
-	return fmt.Sprintf("%d/%d/%d/%d/%d/%d/%d", c.ZLen, c.N, c.M, c.Off, c.G, c.Pat, c.Seed)
+	return fmt.Sprintf("%d/%d/%d/%d/%d/%d/%v/%d/%d", c.ZLen, c.N, c.M, c.Off, c.G, c.ZF, c.Scr, c.Pat, c.Seed)
 }
 
 func zClass(zlen int) string {
@@ -655,27 +856,97 @@ func checkKdf(c kdfCase, r *h.Rec) error {
 		return "equal"
 	}
 
+	// give hands z to one library call. With guard-page placement it is the one
+	// guarded slice; otherwise every call gets its own private copy (misaligned
+	// by Off, or in flavour ZF), which is checked and, with Scr, overwritten as
+	// soon as the call returns - so nothing may hold on to it.
+	var argErr error
+	give := func(zv []byte, flavour int, call func(z []byte) []byte) []byte {
+		if c.G != 0 {
+			return call(z[:len(zv)]) // zv is z or a prefix of it
+		}
+		var arg []byte
+		spareOK := func() error { return nil }
+		if effFlavour(flavour, len(zv)) != 0 {
+			arg, spareOK = flavoured(zv, flavour)
+		} else {
+			backing := make([]byte, c.Off+len(zv))
+			arg = backing[c.Off : c.Off+len(zv) : c.Off+len(zv)]
+			copy(arg, zv)
+		}
+		out := call(arg)
+		if !bytes.Equal(arg, zv) && argErr == nil {
+			argErr = fmt.Errorf("a KDF call modified z: %s -> %s", h.Hex(zv), h.Hex(arg))
+		}
+		if err := spareOK(); err != nil && argErr == nil {
+			argErr = fmt.Errorf("a KDF call: %v", err)
+		}
+		if c.Scr {
+			scribble(arg)
+		}
+		return out
+	}
+	if c.G == 0 {
+		if f := effFlavour(c.ZF, c.ZLen); f != 0 {
+			r.Label("arg z " + flavourNames[f])
+		}
+		if c.Scr {
+			r.Label("scribble-after-every-call")
+		} else {
+			r.Label("no-scribble")
+		}
+	}
+
 	// 1. sm3.Kdf
-	got := sm3.Kdf(z, c.N)
+	got := give(zc, c.ZF, func(z []byte) []byte { return sm3.Kdf(z, c.N) })
 	if !bytes.Equal(got, want) {
 		return fmt.Errorf("sm3.Kdf differs from SM3(z||1)||SM3(z||2)||...: %s; %s", diff(got, want), desc())
 	}
 	// 2. kdf.Kdf(sm3.New, ...) (takes the KdfInterface shortcut)
-	if g := kdf.Kdf(sm3.New, z, c.N); !bytes.Equal(g, want) {
+	if g := give(zc, c.ZF, func(z []byte) []byte { return kdf.Kdf(sm3.New, z, c.N) }); !bytes.Equal(g, want) {
 		return fmt.Errorf("kdf.Kdf(sm3.New) differs from the standard: %s; %s", diff(g, want), desc())
 	}
 	// 3. the KdfInterface method on a fresh and on a used hash object
 	fresh := sm3.New()
 	if ki, ok := fresh.(kdf.KdfInterface); ok {
-		if g := ki.Kdf(z, c.N); !bytes.Equal(g, want) {
-			return fmt.Errorf("sm3.New().(kdf.KdfInterface).Kdf differs from the standard: %s; %s", diff(g, want), desc())
+		g1 := give(zc, c.ZF, func(z []byte) []byte { return ki.Kdf(z, c.N) })
+		if !bytes.Equal(g1, want) {
+			return fmt.Errorf("sm3.New().(kdf.KdfInterface).Kdf differs from the standard: %s; %s", diff(g1, want), desc())
+		}
+		if c.Scr {
+			scribble(g1) // the result is the caller's
+		}
+		// the same object again: a shorter secret and another output length ...
+		z2 := zc[:c.ZLen/2]
+		n2 := min(c.N, 4096)/2 + 33
+		want2 := ref.SM3KDF(z2, n2)
+		if g := give(z2, 1+int(c.Seed%3), func(z []byte) []byte { return ki.Kdf(z, n2) }); !bytes.Equal(g, want2) {
+			return fmt.Errorf("second Kdf on the same hash object (len(z)=%d, n=%d, after len(z)=%d, n=%d) differs from the standard: %s; z=%s", len(z2), n2, c.ZLen, c.N, diff(g, want2), h.Hex(z2))
+		}
+		// ... after a call that fails (a negative length exceeds the documented block limit and panics) ...
+		if func() (panicked bool) {
+			defer func() { panicked = recover() != nil }()
+			ki.Kdf(zc, -100)
+			return
+		}() {
+			r.Label("kdf-object reused after a panicking call")
+		}
+		// ... the first request once more ...
+		if g := give(zc, c.ZF, func(z []byte) []byte { return ki.Kdf(z, c.N) }); !bytes.Equal(g, want) {
+			return fmt.Errorf("third Kdf on the same hash object differs from the standard: %s; %s", diff(g, want), desc())
+		}
+		// ... and after Reset it is an ordinary empty hash
+		fresh.Reset()
+		fresh.Write(zc)
+		if d, w := fresh.Sum(nil), ref.SM3(zc); !bytes.Equal(d, w[:]) {
+			return fmt.Errorf("after Kdf and Reset the hash object digests z to %x, want %x; %s", d, w, desc())
 		}
 		used := sm3.New()
 		used.Write(fill(gen.Mix(c.Seed, 0x11), int(c.Seed%131), 0, 0))
 		if c.Seed&1 == 1 {
 			used.Sum(nil)
 		}
-		if g := used.(kdf.KdfInterface).Kdf(z, c.N); !bytes.Equal(g, want) {
+		if g := give(zc, c.ZF, func(z []byte) []byte { return used.(kdf.KdfInterface).Kdf(z, c.N) }); !bytes.Equal(g, want) {
 			return fmt.Errorf("KdfInterface.Kdf on a hash object that had absorbed %d bytes differs from the standard: %s; %s", c.Seed%131, diff(g, want), desc())
 		}
 		r.Label("path:KdfInterface fresh+used")
@@ -683,11 +954,11 @@ func checkKdf(c kdfCase, r *h.Rec) error {
 		r.Label("path:no KdfInterface on sm3.New()")
 	}
 	// 4. kdf.Kdf generic Write/Sum/Reset branch over SM3
-	if g := kdf.Kdf(func() hash.Hash { return plainHash{sm3.New()} }, z, c.N); !bytes.Equal(g, want) {
+	if g := give(zc, c.ZF, func(z []byte) []byte { return kdf.Kdf(func() hash.Hash { return plainHash{sm3.New()} }, z, c.N) }); !bytes.Equal(g, want) {
 		return fmt.Errorf("kdf.Kdf generic branch over SM3 differs from the standard: %s; %s", diff(g, want), desc())
 	}
 	// 5. kdf.Kdf Marshal/Unmarshal branch over SM3 (state export after z, import per counter)
-	if g := kdf.Kdf(func() hash.Hash { return &marshalHash{sm3.New()} }, z, c.N); !bytes.Equal(g, want) {
+	if g := give(zc, c.ZF, func(z []byte) []byte { return kdf.Kdf(func() hash.Hash { return &marshalHash{sm3.New()} }, z, c.N) }); !bytes.Equal(g, want) {
 		return fmt.Errorf("kdf.Kdf Marshal/Unmarshal branch over SM3 differs from the standard: %s; %s", diff(g, want), desc())
 	}
 	marshalBranch := c.N > 32 && c.ZLen >= 64
@@ -698,15 +969,15 @@ func checkKdf(c kdfCase, r *h.Rec) error {
 	}
 	// 6. kdf.Kdf over SHA-256: natural dispatch (marshal branch when eligible) and forced generic branch
 	want256 := sha256KDF(zc, c.N)
-	if g := kdf.Kdf(sha256.New, z, c.N); !bytes.Equal(g, want256) {
+	if g := give(zc, c.ZF, func(z []byte) []byte { return kdf.Kdf(sha256.New, z, c.N) }); !bytes.Equal(g, want256) {
 		return fmt.Errorf("kdf.Kdf(sha256.New) differs from SHA256(z||1)||SHA256(z||2)||...: %s; %s", diff(g, want256), desc())
 	}
-	if g := kdf.Kdf(func() hash.Hash { return plainHash{sha256.New()} }, z, c.N); !bytes.Equal(g, want256) {
+	if g := give(zc, c.ZF, func(z []byte) []byte { return kdf.Kdf(func() hash.Hash { return plainHash{sha256.New()} }, z, c.N) }); !bytes.Equal(g, want256) {
 		return fmt.Errorf("kdf.Kdf generic branch over SHA-256 differs from the definition: %s; %s", diff(g, want256), desc())
 	}
 	// 7. prefix law (model-free) and the longer output against the model
 	if c.M > c.N {
-		long := sm3.Kdf(z, c.M)
+		long := give(zc, c.ZF, func(z []byte) []byte { return sm3.Kdf(z, c.M) })
 		if len(long) != c.M || !bytes.Equal(long[:c.N], got) {
 			return fmt.Errorf("prefix law: sm3.Kdf(z,%d) is not the first %d bytes of sm3.Kdf(z,%d): %s; %s", c.N, c.N, c.M, diff(got, long[:min(len(long), c.N)]), desc())
 		}
@@ -721,6 +992,9 @@ func checkKdf(c kdfCase, r *h.Rec) error {
 	}
 	if !bytes.Equal(z, zc) {
 		return fmt.Errorf("a KDF call modified z: %s -> %s", h.Hex(zc), h.Hex(z))
+	}
+	if argErr != nil {
+		return fmt.Errorf("%v; %s", argErr, desc())
 	}
 
 	r.Label(zClass(c.ZLen) + " x " + blockClass(c.N))
@@ -746,6 +1020,18 @@ func checkKdf(c kdfCase, r *h.Rec) error {
 // 4-lane batch, then 0..3 serial blocks): 6, 11, 12, 15, 23 blocks.
 var kdfSweepN = []int{0, 1, 31, 32, 33, 95, 96, 97, 127, 128, 129, 161, 192, 223, 224, 225, 255, 256, 257, 258, 300, 352, 353, 449, 511, 512, 513, 705, 1000}
 
+// sweepZF rotates the flavours of z through the sweep: nil / []byte{} / buf[:0]
+// for the empty secret, spare capacity for every fifth other case.
+func sweepZF(zl, n int) int {
+	if zl == 0 {
+		return 1 + n/3%3 // n%3 selects the placement, which must be the heap for a flavour to apply
+	}
+	if (zl+n)%5 == 0 {
+		return 4
+	}
+	return 0
+}
+
 func TestC01_KdfExhaustive(t *testing.T) {
 	observeTier()
 	h.MarkExhaustive("kdf-exhaustive")
@@ -755,7 +1041,7 @@ func TestC01_KdfExhaustive(t *testing.T) {
 			// prefix law is n+97, which moves every n into the next path class
 			for zl := 0; zl <= 200; zl++ {
 				for _, n := range kdfSweepN {
-					emit(kdfCase{ZLen: zl, N: n, M: n + 97, Off: zl % 3, G: (zl + n) % 3, Seed: h.Seed})
+					emit(kdfCase{ZLen: zl, N: n, M: n + 97, Off: zl % 3, G: (zl + n) % 3, ZF: sweepZF(zl, n), Scr: (zl+n)%4 != 0, Seed: h.Seed})
 				}
 			}
 			return
@@ -767,7 +1053,7 @@ func TestC01_KdfExhaustive(t *testing.T) {
 				if n%8 == 0 || n%32 == 31 {
 					m = n + 97
 				}
-				emit(kdfCase{ZLen: zl, N: n, M: m, Off: zl % 3, G: (zl + n) % 3, Seed: h.Seed})
+				emit(kdfCase{ZLen: zl, N: n, M: m, Off: zl % 3, G: (zl + n) % 3, ZF: sweepZF(zl, n), Scr: (zl+n)%4 != 0, Seed: h.Seed})
 			}
 			for _, n := range []int{1000, 1023, 1024, 1025} {
 				emit(kdfCase{ZLen: zl, N: n, M: n + 97, Off: zl % 3, Seed: h.Seed})
@@ -779,7 +1065,7 @@ func TestC01_KdfExhaustive(t *testing.T) {
 func TestC01_KdfRandom(t *testing.T) {
 	observeTier()
 	maxZ := h.Scale(2048, 65536)
-	h.Prop(t, h.P{Name: "kdf-random", Quick: 30000, Thorough: 750000, Journal: true}, func(t *rapid.T) kdfCase {
+	h.Prop(t, h.P{Name: "kdf-random", Quick: 20000, Thorough: 750000, Journal: true}, func(t *rapid.T) kdfCase {
 		var c kdfCase
 		// len(z): block count and residue drawn separately so that every
 		// residue mod 64 is hit, with extra weight on 48..63
@@ -825,6 +1111,8 @@ func TestC01_KdfRandom(t *testing.T) {
 		}
 		c.Off = rapid.IntRange(0, 17).Draw(t, "off")
 		c.G = genGuard().Draw(t, "guard")
+		c.ZF = genFlavour().Draw(t, "zFlavour")
+		c.Scr = rapid.IntRange(0, 3).Draw(t, "scribble") > 0
 		if rapid.IntRange(0, 9).Draw(t, "pat") == 0 {
 			c.Pat = rapid.IntRange(1, 2).Draw(t, "patv")
 		}
